@@ -311,6 +311,7 @@ def cases(tier, seed):
     # (bodies with uninterpreted jets: ~1-2 min each; the interpreted exit_panic_after body did not finish in 25 min)
     for kind, interp in (("exit_panic_after", False), ("exit", False)) + ((("exit_bool", False), ("countdown", False)) if tier == "thorough" else ()):
         out.append(E.Case("forwhile-%s-w16-%s-cut8" % (kind, "int" if interp else "uf"), build(kind, 16), interpret=interp, custom=cut_proof, validate=False,
+                          debug_modes=(False,),  # plain build only: the debug build of these cases ran for 40 min at 15 GB (marker bookkeeping); widths <= 8 cover both builds
                           tags={"kind": kind, "counter_bits": 16, "cut": 8, "mode": "interpreted" if interp else "uninterpreted",
                                 "exit": "symbolic (witness), compositional: top 8 bits x bottom 8 bits", "seed": seed}))
     add("exit", 4, False, mut={"fw_no_stop"})
